@@ -26,9 +26,10 @@ func genHarness(o *Obligation, doc *replayDoc, dir string) string {
 		return ""
 	}
 	fn := o.enc.root
-	if fn == nil || fn.Pkg == nil || fn.Signature.Recv() != nil || fn.Synthetic != "" || strings.HasPrefix(fn.Name(), "lemma") {
+	if fn == nil || fn.Pkg == nil || fn.Synthetic != "" || strings.HasPrefix(fn.Name(), "lemma") {
 		return ""
 	}
+	isMethod := fn.Signature.Recv() != nil
 	pkgName := fn.Pkg.Pkg.Name()
 	imports := map[string]string{"testing": ""}
 	qual := func(p *types.Package) string {
@@ -49,6 +50,36 @@ func genHarness(o *Obligation, doc *replayDoc, dir string) string {
 		ts := types.TypeString(prm.Type(), qual)
 		v := fmt.Sprintf("p%d", i)
 		switch kindOf(prm.Type()) {
+		case "ptr":
+			// a pointer to a struct of scalars and short strings (typically the receiver): rebuilt field by field
+			lit, ok := structLit(prm.Type(), pv, qual)
+			if !ok {
+				return ""
+			}
+			fmt.Fprintf(&b, "\t%s := %s\n", v, lit)
+			if st, isSt := prm.Type().Underlying().(*types.Pointer).Elem().Underlying().(*types.Struct); isSt {
+				for k := 0; k < st.NumFields(); k++ {
+					f := st.Field(k)
+					if kindOf(f.Type()) == "int" {
+						shadow[prm.Name()+"."+f.Name()] = "int64(" + v + "." + f.Name() + ")"
+					}
+				}
+			}
+		case "time":
+			// an instant in UTC (the model's location id has no counterpart in the real program)
+			var absS string
+			switch m := pv.(type) {
+			case map[string]string:
+				absS = m["abs"]
+			case map[string]interface{}:
+				absS, _ = m["abs"].(string)
+			}
+			n, ok := new(big.Int).SetString(absS, 10)
+			if !ok || !n.IsInt64() {
+				return ""
+			}
+			imports["time"] = "time"
+			fmt.Fprintf(&b, "\t%s := time.Unix(0, %s).UTC()\n", v, n.String())
 		case "int":
 			s, _ := pv.(string)
 			n, ok := new(big.Int).SetString(s, 10)
@@ -125,6 +156,12 @@ func genHarness(o *Obligation, doc *replayDoc, dir string) string {
 		}
 	}
 	call := fn.Name() + "(" + strings.Join(args, ", ") + ")"
+	if isMethod {
+		if len(args) == 0 {
+			return ""
+		}
+		call = args[0] + "." + fn.Name() + "(" + strings.Join(args[1:], ", ") + ")"
+	}
 	clause := ""
 	if o.Kind == "ensures" {
 		clause = clauseToGo(o.src(), shadow)
@@ -168,6 +205,69 @@ func genHarness(o *Obligation, doc *replayDoc, dir string) string {
 		return ""
 	}
 	return path
+}
+
+// structLit builds `&T{field: value, ...}` for a pointer-to-struct parameter from the model's field values; only
+// integer, boolean and short string fields are set (others keep their zero value); ok=false if a value does not fit.
+func structLit(t types.Type, pv interface{}, qual types.Qualifier) (string, bool) {
+	pt, ok := t.Underlying().(*types.Pointer)
+	if !ok {
+		return "", false
+	}
+	st, ok := pt.Elem().Underlying().(*types.Struct)
+	if !ok {
+		return "", false
+	}
+	m, _ := pv.(map[string]string)
+	if m == nil {
+		if mi, isI := pv.(map[string]interface{}); isI {
+			m = map[string]string{}
+			for k, v := range mi {
+				if s, isS := v.(string); isS {
+					m[k] = s
+				}
+			}
+		}
+	}
+	if m == nil {
+		return "", false
+	}
+	var fs []string
+	for k := 0; k < st.NumFields(); k++ {
+		f := st.Field(k)
+		switch kindOf(f.Type()) {
+		case "int":
+			s, has := m[f.Name()]
+			if !has {
+				continue
+			}
+			n, okN := new(big.Int).SetString(s, 10)
+			if !okN || !fitsType(n, f.Type()) {
+				return "", false
+			}
+			fs = append(fs, fmt.Sprintf("%s: %s(%s)", f.Name(), types.TypeString(f.Type(), qual), n.String()))
+		case "bool":
+			if s, has := m[f.Name()]; has && (s == "true" || s == "false") {
+				fs = append(fs, fmt.Sprintf("%s: %s", f.Name(), s))
+			}
+		case "string":
+			ls, has := m[f.Name()+"#len"]
+			if !has {
+				continue
+			}
+			n, err := strconv.Atoi(ls)
+			if err != nil || n < 0 || n > 8 {
+				return "", false // longer than the bytes the model gives
+			}
+			bs := make([]byte, n)
+			for i := 0; i < n; i++ {
+				v, _ := strconv.Atoi(m[fmt.Sprintf("%s#%d", f.Name(), i)])
+				bs[i] = byte(v)
+			}
+			fs = append(fs, fmt.Sprintf("%s: %s", f.Name(), strconv.Quote(string(bs))))
+		}
+	}
+	return "&" + types.TypeString(pt.Elem(), qual) + "{" + strings.Join(fs, ", ") + "}", true
 }
 
 func isErrorType(t types.Type) bool {
